@@ -296,6 +296,68 @@ def queries(chk, P):
     chk.floor("MERGE", 6)
 
 
+def dropaxis(chk, P):
+    chk.rule("DROPAXIS", "the leaf ray/triangle test projects onto the two coordinate axes that are NOT the axis of the largest normal component, for every ordering of the "
+             "three component magnitudes (a finite case analysis over the comparisons the code makes): the dropped axis then has a non-zero normal component, so the "
+             "projected triangle is not degenerate")
+    f = P.fn(NODE + "::intersectsRay")
+
+    def mag(x):
+        """(vector variable, component) for abs(v[k])"""
+        x = _strip(x)
+        if not (isinstance(x, list) and x[:1] == ["call"] and str(x[1]).split("::")[-1] in ("abs", "fabs")):
+            return None
+        a = _strip((x[3] or [None])[0])
+        if isinstance(a, list) and a[0] in ("opc", "idx") and _strip(a[-1])[:1] == ["lit"]:
+            v = var_of(a[2] if a[0] == "opc" else a[1])
+            try:
+                return (v, int(_strip(a[-1])[1]))
+            except ValueError:
+                return None
+        return None
+
+    def cmp_of(c):
+        if isinstance(c, list) and len(c) == 4 and c[0] == "op" and c[1] in (">", "<", ">=", "<=") and mag(c[2]) and mag(c[3]) and mag(c[2])[0] == mag(c[3])[0]:
+            return c[1], mag(c[2])[1], mag(c[3])[1]
+        return None
+    heads = [b for b, blk in f.blocks.items() if blk.get("term") and cmp_of(blk["term"].get("cond"))]
+    if not chk.shape(len(heads) >= 2, "DROPAXIS", "axis-selection", f.loc, "%d comparisons of normal-component magnitudes" % len(heads)):
+        return
+    preds = f.preds()
+    roots = [b for b in heads if not any(p_ in heads for p_ in preds[b])]
+    if not chk.shape(len(roots) == 1, "DROPAXIS", "axis-selection:root", f.loc, "%d" % len(roots)):
+        return
+    bad, ncase = [], 0
+    for r0 in range(3):
+        for r1 in range(3):
+            for r2 in range(3):
+                m = (r0, r1, r2)
+                b = roots[0]
+                axes = {}
+                for _ in range(8):
+                    blk = f.blocks[b]
+                    for e in blk["ev"]:
+                        if e["k"] == "assign" and e["op"] == "=" and e["lhs"][:1] == ["var"] and isinstance(e.get("rhs"), list) and _strip(e["rhs"])[:1] == ["lit"]:
+                            axes[e["lhs"][1]] = int(_strip(e["rhs"])[1])
+                    t = blk.get("term")
+                    cc = cmp_of(t.get("cond")) if t else None
+                    if cc is None:
+                        break
+                    o, i_, j_ = cc
+                    v = {">": m[i_] > m[j_], "<": m[i_] < m[j_], ">=": m[i_] >= m[j_], "<=": m[i_] <= m[j_]}[o]
+                    b = blk["succ"][0 if v else 1]
+                ncase += 1
+                kept = sorted(axes.values())
+                if len(axes) != 2 or len(set(kept)) != 2 or not all(0 <= k_ <= 2 for k_ in kept):
+                    bad.append("magnitudes ranked %s: axes %s" % (m, axes))
+                    continue
+                dropped = ({0, 1, 2} - set(kept)).pop()
+                if m[dropped] != max(m):
+                    bad.append("magnitudes ranked %s: keeps axes %s and drops axis %d, which is not a largest component" % (m, kept, dropped))
+    chk.judge(not bad, "DROPAXIS", "intersectsRay:dominant-normal-axis-dropped-in-all-%d-orderings" % ncase, f.loc, "; ".join(bad[:3]) if bad else "checked %d rank assignments" % ncase)
+    chk.floor("DROPAXIS", 3)
+
+
 def run(chk, tier, overlays=()):
     units = units_matching(UNITS)
     P = Program(extract(units, hdr="^$", overlays=overlays))
@@ -304,6 +366,7 @@ def run(chk, tier, overlays=()):
     tree(chk, P)
     partition(chk, P)
     queries(chk, P)
+    dropaxis(chk, P)
 
 
 _F = "SimTKmath/Geometry/src/ContactGeometry_TriangleMesh.cpp"
@@ -329,6 +392,8 @@ MUTATIONS = [
          old="            distance2 = child1distance2;\n            face = child1face;", new="            distance2 = child1distance2;\n            face = child2face;", expect="MERGE:findNearestPoint"),
     dict(name="ray query reports the face of the previous triangle", file=_F,
          old="        distance = t;\n        face = triangles[i];", new="        distance = t;\n        face = triangles[i > 0 ? i-1 : 0];", expect="LEAF:intersectsRay:face=this-triangle"),
+    dict(name="seeded (sub-agent): y-dominant faces projected onto the xy plane", file=_F,
+         old="            else {\n                axis1 = 0;\n                axis2 = 2;\n            }", new="            else {\n                axis1 = 0;\n                axis2 = 1;\n            }", expect="DROPAXIS:intersectsRay"),
     dict(name="split lists reused across split attempts", file=_F,
          old="        for (int i = 0; i < 3; i++) {\n            Array_<int> child1Indices, child2Indices;\n            splitObbAxis(", new="        Array_<int> child1Indices, child2Indices;\n        for (int i = 0; i < 3; i++) {\n            splitObbAxis(",
          expect="TREE:children:lists-start-empty-for-every-split-attempt"),
